@@ -357,6 +357,7 @@ fn cmd_pair(a: &Args) -> i32 {
     let mut hashes = std::collections::HashSet::new();
     let mut n = 0u64;
     let mut cfgno = 0u64;
+    let mut three = 0u64;
     for &(fill, hold) in setups {
         for &rkind in reads {
             for &wkind in writes {
@@ -365,14 +366,15 @@ fn cmd_pair(a: &Args) -> i32 {
                     if cfgno % nshards != shard % nshards {
                         continue;
                     }
-                    let run = |i: u64, j: u64, n: u64| {
-                        let cfg = wl_pair::PairCfg { exec_no: shard * 10_000_000 + n, hold, rkind, wkind, first, i, j };
+                    let run3 = |i: u64, j: u64, k: u64, n: u64| {
+                        let cfg = wl_pair::PairCfg { exec_no: shard * 10_000_000 + n, hold, rkind, wkind, first, i, j, k };
                         if fill {
                             wl_pair::run_pair::<Option<Tp<1>>, FillFastSlots>(&p, &cfg)
                         } else {
                             wl_pair::run_pair::<Option<Tp<1>>, DefaultStrategy>(&p, &cfg)
                         }
                     };
+                    let run = |i: u64, j: u64, n: u64| run3(i, j, 0, n);
                     // solo run: how many step points each thread makes, and where the reader's preparation ends
                     n += 1;
                     let solo = run(u64::MAX, u64::MAX, n);
@@ -388,6 +390,19 @@ fn cmd_pair(a: &Args) -> i32 {
                                 r.execs += 1;
                                 r.ops += o.out.ops as u64;
                             });
+                            // three cuts: the reader (on the helping path) moves a few more steps before the writer finishes
+                            if first == 0 && (fill || hold >= 8) && j > 0 {
+                                for k in 1..=(if full { 12 } else { 4 }) {
+                                    n += 1;
+                                    three += 1;
+                                    let o = run3(i, j, k, n);
+                                    hashes.insert(o.out.trace_hash);
+                                    runner::with(|r| {
+                                        r.execs += 1;
+                                        r.ops += o.out.ops as u64;
+                                    });
+                                }
+                            }
                         }
                         if runner::with(|r| r.violations.len()) >= 5 {
                             break;
@@ -399,6 +414,7 @@ fn cmd_pair(a: &Args) -> i32 {
         }
     }
     runner::count("pair.schedules", n);
+    runner::count("pair.schedules_with_three_cuts", three);
     runner::count("distinct_nontrivial", hashes.len() as u64);
     0
 }
